@@ -1,8 +1,18 @@
 //! mc-front: engines that need the verification hooks (feature `verif-hooks` of cgt-core and cgt-formatter-pdf).
 //! Usage: mc-front <C16|C17> <quick|thorough>
 mod order;
+mod show;
 
 use mcx::run::{Tier, machinery_failure};
+
+pub fn preds() -> std::collections::BTreeMap<String, mcx::run::Predicate> {
+    let mut m: std::collections::BTreeMap<String, mcx::run::Predicate> = std::collections::BTreeMap::new();
+    fn never(_i: &mcx::run::Input, _c: &serde_json::Value) -> bool {
+        false
+    }
+    m.insert("never".into(), never as mcx::run::Predicate);
+    m
+}
 
 fn main() {
     let args: Vec<String> = std::env::args().collect();
@@ -11,6 +21,21 @@ fn main() {
         std::process::exit(2);
     }
     mcx::observe::quiet_panics();
+    if args[1] == "dump-pdf" {
+        let text = std::fs::read_to_string(&args[2]).unwrap_or_default();
+        let txs = mcx::refparse::parse(&text).unwrap_or_default();
+        let fx = cgt_money::load_default_cache().ok();
+        let rep = cgt_core::calculator::calculate(&txs, None, fx.as_ref(), &mcx::observe::all_years_config());
+        match rep {
+            Ok(r) => {
+                for (p, x, y, t) in cgt_formatter_pdf::verif_text_runs(&r).unwrap_or_default() {
+                    println!("{p} {x:8.2} {y:8.2} {t:?}");
+                }
+            }
+            Err(e) => println!("error {e}"),
+        }
+        return;
+    }
     let tier = match args[2].as_str() {
         "quick" => Tier::Quick,
         "thorough" => Tier::Thorough,
@@ -22,6 +47,7 @@ fn main() {
     };
     let code = match args[1].as_str() {
         "C16" => order::c16(tier),
+        "C17" => show::c17(tier),
         other => machinery_failure(&format!("mc-front has no engine for {other}")),
     };
     std::process::exit(code);
